@@ -1,4 +1,5 @@
 """C08 - representative cycles really represent their bars."""
+import zlib
 from vlib import core
 from props import pm_common as pm
 from props import c05
@@ -27,7 +28,7 @@ ASSUMPTIONS = c05.ASSUMPTIONS + [
 
 def scripts_for_factory(ctx, ncases, steps):
     def scripts_for(cfg):
-        rng = ctx.rng.__class__(ctx.seed * 15485863 + hash(cfg.tag) % 100000)
+        rng = ctx.rng.__class__(ctx.seed * 15485863 + zlib.crc32(cfg.tag.encode()) % 100000)
         out = []
         for i in range(ncases):
             cx = pm.random_complex(rng, maxcells=18)
